@@ -68,7 +68,7 @@ def handleEv (s : St) (now : Nat) (w : List String) : St × String :=
     | some t =>
       let holds : Bool := if who = "qh" then s.qh == .hold t else if who = "sh" then s.sh == .holdRun t else false
       if !holds then (s, s!"reject {who}-does-not-hold-task") else
-      let r := (runSection { s with now := now } t (shHoldsAsap s t && who == "qh")).2
+      let r := runResOf s t
       if resName r != res then (s, s!"reject model-result {resName r}")
       else take s now (if who = "qh" then .runQ else .runS) (both · t)
   | ["spawn", k] => match k.toNat? with
@@ -92,7 +92,7 @@ def handleEv (s : St) (now : Nat) (w : List String) : St × String :=
         | none => (s, "reject no-released-watcher")
   | ["shfetch", "none"] =>
     if s.sh != .idle then (s, "reject schedule-handler-busy")
-    else if fetchRes s now != .none then (s, "reject model-fetch-differs") else take s now .shFetch (fun _ => "-")
+    else if fetchRes (setNow s now) != .none then (s, "reject model-fetch-differs") else take s now .shFetch (fun _ => "-")
   | ["shfetch", kind, k] => match k.toNat? with
     | none => (s, "bad-op")
     | some t =>
@@ -102,7 +102,7 @@ def handleEv (s : St) (now : Nat) (w : List String) : St × String :=
       | none => (s, "bad-op")
       | some e =>
         if s.sh != .idle then (s, "reject schedule-handler-busy")
-        else if fetchRes s now != e then (s, "reject model-fetch-differs")
+        else if fetchRes (setNow s now) != e then (s, "reject model-fetch-differs")
         else take s now .shFetch (fun s' => snapTask (s'.tasks t))
   | _ => (s, "bad-op")
 
